@@ -362,22 +362,46 @@ def corr(ctx, evaluated, cap, shard_leaves=25000):
     ctx.coverage["correspondence_literals"] = sum(p.leaves for _, p, _ in shards)
     for e in errors:
         ctx.corr_break("Corr.C12.check (coqc failed)", e)
-    for i in bad:
+    why = explain_bad(ctx, [evaluated[i][1] for i in bad[:8]]) if bad else []
+    for n, i in enumerate(bad):
         c, ev = evaluated[i]
         o = ev["obs"]
         ctx.corr_break("Corr.C12.check: eq/hash specs (Model/EqHashSpecs.v) vs implementation",
-                       dict(c, observed={k: list(map(str, o[k][:2])) for k in o}))
+                       dict(c, observed={k: list(map(str, o[k][:2])) for k in o},
+                            disagrees_in=why[n] if n < len(why) else None))
     ctx.log(f"corr cases={len(sel)} of {len(evaluated)} files={len(shards)} disagree={len(bad)} "
             f"coq_errors={len(errors)}")
     return [evaluated[i] for i in bad]
+
+
+CONJUNCTS = ["attributes of x = generated A_K", "attributes of y = generated A_K", "x has its generated types",
+             "y has its generated types", "x == y", "y == x", "hash(x) returns", "hash(y) returns", "hash(x) == hash(y)"]
+
+
+def explain_bad(ctx, evs):
+    """which conjunct of Corr.C12.check fails, for the first disagreeing cases (diagnostics only)"""
+    import re
+    pool = Pool()
+    terms = [coq_case(ev, pool) for ev in evs]
+    ok, out = ctx.coq_eval("explain", IMPORTS, "\n".join(pool.defs) + "\nEval vm_compute in (map explain " +
+                           qlist(terms) + ").\n")
+    if not ok:
+        return []
+    rows = re.findall(r"\[((?:true|false)(?:;\s*(?:true|false))*)\]", out)
+    res = []
+    for r in rows:
+        flags = [x.strip() == "true" for x in r.split(";")]
+        res.append([CONJUNCTS[k] for k, f in enumerate(flags) if not f and k < len(CONJUNCTS)])
+    return res
 
 
 # ------------------------------------------------------------------------------------------------ run
 def run(ctx):
     ctx.trusted = ["Coq 8.16.1 kernel + vm_compute (no native_compute)",
                    "axioms: none (Print Assumptions: Closed under the global context for every theorem)",
-                   "coq/Gen/Tables_C12.v regenerated from inspect.signature of every class on every run "
-                   "(harness/props/c12_tables.py, fail-closed)",
+                   "coq/Gen/Tables_C12.v regenerated on every run from inspect.signature / typing.get_type_hints of every "
+                   "class with __eq__/__hash__ in the anchored modules (harness/props/c12_tables.py, fail-closed: unknown "
+                   "class, new State subclass, untranslatable annotation abort the run)",
                    "hand-written spec table coq/Model/EqHashSpecs.v (which attribute each __eq__/__hash__ compares and "
                    "how), validated attribute by attribute by the correspondence relation coq/Corr/C12.v on every run",
                    "harness/props/c12.py, c12_classes.py (generators, read-back of held values, Coq term printer)",
